@@ -87,7 +87,7 @@ func checkC08(c *km.Ctx) {
 			for _, ci := range km.CallsIn(fn) {
 				name := km.CalleeFull(ci.Common())
 				if name == RS+"GetUsers" {
-					key := "getusers|" + h.Name() + "|" + posOf(c, ci)
+					key := "getusers|" + km.NameOf(h) + "|" + posOf(c, ci)
 					if seen[key] {
 						continue
 					}
@@ -97,7 +97,7 @@ func checkC08(c *km.Ctx) {
 					if !ok {
 						found = why
 					}
-					r.Add("R-C08-3", km.FuncName(fn), "route "+h.Name()+" -> GetUsers", posOf(c, ci), "Admin(authUser)", found, ok)
+					r.Add("R-C08-3", km.FuncName(fn), "route "+km.NameOf(h)+" -> GetUsers", posOf(c, ci), "Admin(authUser)", found, ok)
 					continue
 				}
 				acc, isAcc := accessors[name]
@@ -108,13 +108,13 @@ func checkC08(c *km.Ctx) {
 				if acc.arg >= len(args) {
 					continue
 				}
-				key := h.Name() + "|" + posOf(c, ci)
+				key := km.NameOf(h) + "|" + posOf(c, ci)
 				if seen[key] {
 					continue
 				}
 				seen[key] = true
 				needWrite := acc.class == "write"
-				_, adminOnly := adminOnlyHandlers[h.Name()]
+				_, adminOnly := adminOnlyHandlers[km.NameOf(h)]
 				pred := func(k km.Conj, u ssa.Value) bool {
 					u = km.Unwrap(u)
 					if isAuthUser(u) {
@@ -184,7 +184,7 @@ func checkC08(c *km.Ctx) {
 				if !ok {
 					found = why
 				}
-				r.Add("R-C08-1", km.FuncName(fn), "route "+h.Name()+" -> "+short(name)+" ["+acc.class+"]", posOf(c, ci), req, clipS(found, 700), ok)
+				r.Add("R-C08-1", km.FuncName(fn), "route "+km.NameOf(h)+" -> "+short(name)+" ["+acc.class+"]", posOf(c, ci), req, clipS(found, 700), ok)
 			}
 		}
 	}
@@ -287,7 +287,7 @@ func operandOnPaths(c *km.Ctx, s *km.Sem, site ssa.Instruction, operand ssa.Valu
 		}
 		n++
 		if ok2, why := operandOnPaths(c, s, cs.Instr, args[idx], pred, roots, within, depth-1); !ok2 {
-			return false, why + " -> " + fn.Name()
+			return false, why + " -> " + km.NameOf(fn)
 		}
 	}
 	if n == 0 {
